@@ -21,12 +21,14 @@ func c09(c *eng.Ctx, r *eng.Report) {
 	r.Explain = "Totality and field coverage of the protobuf wire codecs in middleware/types/serialization.go, decided on SSA and go/types: " +
 		"R9.1 no field of a protobuf message that is optional by its proto2 struct tag (`opt`) is dereferenced, and no function is handed an optional nested message, without a nil guard on that path (required fields are exempt: Unmarshal rejects their absence); " +
 		"R9.2 for each codec pair every field of the Go struct is read by the encoder and written by the decoder (reviewed exclusions listed), every field the identifying hash covers is among them, and *big.Int fields are reconstructed under a nil (presence) test, not a length test, so that zero survives; " +
-		"R9.3 discarded errors of time/JSON (un)marshalling inside the converters are listed. " +
+		"R9.3 discarded errors of time/JSON (un)marshalling inside the converters are listed; " +
+		"R9.4 values cross the codec verbatim — every call made by a codec function of middleware/types (and the same-package helpers it reaches) is a reviewed value-preserving conversion, a generated getter or a sibling codec function, and no output element aliases a loop variable that the next iteration overwrites. " +
 		"Not decided: value equality after a round trip (nil-vs-empty slices, time zones)."
 	r.Assume = []string{"golang/protobuf proto2 Unmarshal returns an error when a `req` field is absent", "generated GetX() accessors are nil-safe"}
 	c09NilGuards(c, r)
 	c09Coverage(c, r)
 	c09Errors(c, r)
+	c09Verbatim(c, r)
 }
 
 // pbFieldTag returns "opt", "req" or "rep" for field f of a pb struct type.
@@ -382,6 +384,148 @@ func c09Coverage(c *eng.Ctx, r *eng.Report) {
 			}
 		}
 	}
+}
+
+// codecCone: the codec functions of codecPairs and the helpers of the same package they call.
+func codecCone(c *eng.Ctx) []*ssa.Function {
+	var entries []*ssa.Function
+	for _, cp := range codecPairs {
+		for _, n := range append(append([]string{}, cp.encoders...), cp.decoders...) {
+			if fn := c.Func(typesPkg, n); fn != nil {
+				entries = append(entries, fn)
+			}
+		}
+	}
+	for _, n := range []string{"MarshalTransaction", "UnMarshalTransaction", "MarshalBlock", "UnMarshalBlock", "MarshalBlockHeader", "UnMarshalBlockHeader", "MarshalGroup", "UnMarshalGroup", "PbToTransactions", "TransactionsToPb", "MarshalTransactions", "UnMarshalTransactions"} {
+		if fn := c.Func(typesPkg, n); fn != nil {
+			entries = append(entries, fn)
+		}
+	}
+	in := func(fn *ssa.Function) bool { return strings.HasSuffix(eng.FuncPkgPath(fn), "/"+typesPkg) }
+	cone := c.ConeOf(entries, in)
+	var out []*ssa.Function
+	for _, fn := range cone.Sorted() {
+		if in(fn) && fn.Blocks != nil {
+			out = append(out, fn)
+		}
+	}
+	return out
+}
+
+// codecCallees: what a codec function may call. Everything here hands the
+// value on unchanged (conversion between equivalent representations) or does
+// not touch it at all; anything else is an unreviewed transformation.
+var codecCallees = map[string]string{
+	"(*math/big.Int).Bytes":                    "big-endian magnitude",
+	"(*math/big.Int).SetBytes":                 "inverse of Bytes",
+	"(*time.Time).UnmarshalBinary":             "inverse of MarshalBinary (instant and zone offset)",
+	"(time.Time).MarshalBinary":                "instant and zone offset",
+	"(common.Hash).Bytes":                      "copy of the 32 bytes",
+	"(common.Sign).Bytes":                      "r||s||v",
+	"common.BytesToHash":                       "inverse of Hash.Bytes",
+	"common.BytesToSign":                       "inverse of Sign.Bytes",
+	"encoding/json.Marshal":                    "RequestIds map",
+	"encoding/json.Unmarshal":                  "RequestIds map",
+	"github.com/gogo/protobuf/proto.Marshal":   "wire encoding",
+	"github.com/gogo/protobuf/proto.Unmarshal": "wire decoding",
+	"fmt.Printf":                               "diagnostics",
+	"iface:error.Error":                        "diagnostics",
+	"iface:middleware/log.Logger.Errorf":       "diagnostics",
+	"iface:middleware/log.Logger.Debugf":       "diagnostics",
+	"iface:middleware/log.Logger.Warnf":        "diagnostics",
+	"builtin:append":                           "", "builtin:len": "", "builtin:cap": "", "builtin:copy": "", "builtin:make": "", "builtin:new": "",
+}
+
+// c09Verbatim: values cross the codec unchanged.
+func c09Verbatim(c *eng.Ctx, r *eng.Report) {
+	const rule = "R9.4"
+	r.Min(rule, 12)
+	cone := codecCone(c)
+	inCone := map[*ssa.Function]bool{}
+	for _, fn := range cone {
+		inCone[fn] = true
+	}
+	for _, fn := range cone {
+		bad := 0
+		for _, s := range eng.Sites(fn) {
+			n := s.Name()
+			if _, ok := codecCallees[n]; ok {
+				continue
+			}
+			if st := s.Static(); st != nil && inCone[st] {
+				continue
+			}
+			if strings.HasPrefix(n, "(*middleware/pb.") && strings.Contains(n, ").Get") {
+				continue // generated nil-safe getter
+			}
+			bad++
+			r.Fail(rule, fmt.Sprintf("transform:%s→%s", eng.FuncName(fn), n), c.Pos(s.Pos()), "codec function "+eng.FuncName(fn)+" calls "+n+", which is not one of the reviewed value-preserving conversions: the decoded (or encoded) content may differ from what was encoded (e.g. a time moved to another zone, a number re-scaled, bytes trimmed), and with it the content hash")
+		}
+		// no output element may alias storage that the next loop iteration overwrites
+		for _, b := range fn.Blocks {
+			for _, in := range b.Instrs {
+				sl, ok := in.(*ssa.Slice)
+				if !ok {
+					continue
+				}
+				al, ok := sl.X.(*ssa.Alloc)
+				if !ok || al.Block() == b {
+					continue
+				}
+				if !cycleAvoiding(b, al.Block()) {
+					continue // not in a loop, or the variable is per-iteration
+				}
+				rewritten := false
+				for _, ref := range *al.Referrers() {
+					if st, isSt := ref.(*ssa.Store); isSt && st.Addr == ssa.Value(al) && cycleAvoiding(st.Block(), al.Block()) {
+						rewritten = true
+					}
+				}
+				escapes := false
+				for _, ref := range *sl.Referrers() {
+					switch x := ref.(type) {
+					case *ssa.Store:
+						escapes = escapes || x.Val == ssa.Value(sl)
+					case *ssa.MapUpdate:
+						escapes = escapes || x.Value == ssa.Value(sl)
+					case *ssa.MakeInterface:
+						escapes = true
+					}
+				}
+				if rewritten && escapes {
+					bad++
+					r.Fail(rule, fmt.Sprintf("alias:%s:%s", eng.FuncName(fn), al.Comment), c.Pos(sl.Pos()), "a slice of the loop variable `"+al.Comment+"` (one variable for the whole loop under this module's `go 1.13` semantics) is kept in the output of "+eng.FuncName(fn)+": every element ends up showing the last iteration's bytes, so a list with two or more distinct entries does not survive encoding")
+				}
+			}
+		}
+		if bad == 0 {
+			r.Pass(rule, "verbatim:"+eng.FuncName(fn), c.Pos(fn.Pos()), "calls only reviewed value-preserving conversions, generated getters and sibling codec functions; keeps no slice of a reused loop variable")
+		}
+	}
+}
+
+// cycleAvoiding: b lies on a CFG cycle that does not pass through avoid.
+func cycleAvoiding(b, avoid *ssa.BasicBlock) bool {
+	seen := map[*ssa.BasicBlock]bool{}
+	var walk func(x *ssa.BasicBlock) bool
+	walk = func(x *ssa.BasicBlock) bool {
+		for _, s := range x.Succs {
+			if s == avoid {
+				continue
+			}
+			if s == b {
+				return true
+			}
+			if !seen[s] {
+				seen[s] = true
+				if walk(s) {
+					return true
+				}
+			}
+		}
+		return false
+	}
+	return walk(b)
 }
 
 func c09Errors(c *eng.Ctx, r *eng.Report) {
